@@ -9,8 +9,8 @@ import time
 from concurrent.futures import ThreadPoolExecutor
 import vlib
 
-MC_OK = ["n3", "n3slow", "n3twoslow", "n3slow2", "n2", "n2slow", "n1", "n3empty"]
-MC_MUTANTS = ["mut_holdlock", "mut_oneshot", "mut_fewer", "mut_holdlock_slow", "reach"]
+MC_OK = ["n3", "n3slow", "n3twoslow", "n3slow2", "n2", "n2slow", "n1", "n3empty", "hist"]
+MC_MUTANTS = ["mut_holdlock", "mut_oneshot", "mut_fewer", "mut_holdlock_slow", "mut_noguard", "reach"]
 
 QUICK_MENU = [
     (1, ["instant", "long", "rdv", "instant"]),
@@ -48,11 +48,11 @@ def tla_seq(kinds):
     return "<<" + ", ".join('"%s"' % k for k in kinds) + ">>"
 
 
-def one_config(idx, n, kinds, sc, nsim, nfree, seed, step_timeout_ms):
+def one_config(idx, n, kinds, sc, nsim, nfree, seed, step_timeout_ms, flavours=None):
     name = "c%d" % idx
     d = sc.path(name)
     os.makedirs(d)
-    consts = "CONSTANTS\n  N = %d\n  T = %d\n  Kind <- K\n  HoldLock = FALSE\n  OneShot = FALSE\n  Spawned = %d\n" % (n, len(kinds), n)
+    consts = "CONSTANTS\n  N = %d\n  T = %d\n  Kind <- K\n  HoldLock = FALSE\n  OneShot = FALSE\n  Guarded = TRUE\n  Spawned = %d\n" % (n, len(kinds), n)
     open(os.path.join(d, "GenPool_%s.tla" % name), "w").write(
         "---- MODULE GenPool_%s ----\nEXTENDS Gen_Pool\nK == %s\n====\n" % (name, tla_seq(kinds)))
     open(os.path.join(d, "GenPool_%s.cfg" % name), "w").write(
@@ -76,6 +76,8 @@ def one_config(idx, n, kinds, sc, nsim, nfree, seed, step_timeout_ms):
     trace = os.path.join(d, "trace.ndjson")
     args = ["pool", "--cases", cases_path, "--out", trace, "--free", nfree, "--seed", seed * 100 + idx,
             "--n", n, "--kind", ",".join(kinds), "--step-timeout-ms", step_timeout_ms]
+    if flavours:
+        args += ["--flavour", ",".join(flavours)]
     vlib.run_harness(args, timeout=1800)
     tv = vlib.validate_trace("TracePool_%s" % name, trace, spec_dir=d, heap="3g")
     events = vlib.read_ndjson(trace)
